@@ -524,7 +524,7 @@ func RunReplay(entries map[string]func()) {
 // with symbolic leaves on one path; mode 1 also forks nil-ness/lengths at the top level.
 func SymValue[T any](name string, depth, mode int) T {
 	var out T
-	g := &symGen{mode: mode & 1, json: mode&2 != 0}
+	g := &symGen{mode: mode & 1, json: mode&2 != 0, fixedKeys: mode&4 != 0}
 	if mode&1 == 1 {
 		g.pick = Choose(countTop(reflect.TypeOf(&out).Elem()) + 1)
 	}
@@ -537,6 +537,7 @@ type symGen struct {
 	anyRR     int
 	pick, pos int
 	json      bool
+	fixedKeys bool
 }
 
 func countTop(t reflect.Type) int {
@@ -624,7 +625,11 @@ func (g *symGen) gen(v reflect.Value, depth int, top bool) {
 		}
 		m := reflect.MakeMap(v.Type())
 		k := reflect.New(v.Type().Key()).Elem()
-		g.gen(k, depth-1, false)
+		if g.fixedKeys && k.Kind() == reflect.String {
+			k.SetString("k")
+		} else {
+			g.gen(k, depth-1, false)
+		}
 		e := reflect.New(v.Type().Elem()).Elem()
 		g.gen(e, depth-1, false)
 		m.SetMapIndex(k, e)
